@@ -1,4 +1,5 @@
 """C04 helper — seeded generator of typed condition trees, rule sets, buffers and externals."""
+from vf.checks import c04lang as L
 from vf.checks.c04lang import (I64MIN, I64MAX, SENT, RD_KINDS, SOPS, Reject, Budget, cfold_walk, true_matches,
                                eval_rules, depth, loop_depth)
 
@@ -89,6 +90,28 @@ class G:
             return e[1]
         return "b"
 
+    def mod(self, ty):
+        """a value provided by the `tests` module: a constant of the specification (defined or undefined)"""
+        r = self.r
+        self.c.needs_tests = True
+        if r.random() < 0.4:
+            return ("undef", ty, r.choice(L.MODUNDEF[ty]))
+        alias = r.choice([a for a, p in L.MODPROBES.items() if p[1] == ty])
+        self.c.exts[alias] = (ty, L.MODPROBES[alias][2])
+        return ("ext", alias)
+
+    def moditer(self, q, body_gen):
+        """for .. in <module array / dictionary>: an enumeration whose items the module fixes"""
+        r = self.r
+        src = r.choice(list(L.MODITER))
+        ity, items = L.MODITER[src]
+        self.c.needs_tests = True
+        dep = len(self.loops)
+        self.loops.append(ity)
+        body = self.as_body(body_gen())
+        self.loops.pop()
+        return ("forenum", q, list(items), body, ity, dep, True, src)
+
     def lit(self, v):
         """an integer expression whose value is v, not necessarily a compile-time constant"""
         r = self.r
@@ -128,7 +151,7 @@ class G:
             return r.choice(self.offs) if r.random() < 0.85 else r.randint(-2, 70)
         if purpose == "index":
             n = len(self.strs_of(s)[2]) if s is not None else 2
-            return r.choice([0, 1, 1, 1, 2, n, n, n + 1, -1, 3])
+            return r.choice([0, 1, 1, 1, 2, n, n, n + 1, -1, 3, 2 ** 32 + 1, 2 ** 32 + n])   # 2^32+k: an `int` index would wrap to k
         if purpose == "shift":
             return r.choice([-1, 0, 1, 2, 8, 31, 32, 62, 63, 64, 65, 1000, -64])
         if purpose == "count":
@@ -154,7 +177,9 @@ class G:
             return ("filesize",)
         if u < 0.61:
             return ("undef", "i")
-        if u < 0.70:
+        if u < 0.66:
+            return self.mod("i")
+        if u < 0.72:
             ivars = [k for k, t in enumerate(self.loops) if t == "i"]
             if ivars:
                 return ("var", r.choice(ivars))
@@ -239,8 +264,10 @@ class G:
                 return ("flt", r.randint(0, 40) / 8.0)
             if v < 0.75:
                 return ("ext", self.c.new_ext("f", r.randint(-16, 40) / 8.0))
-            if v < 0.87:
+            if v < 0.84:
                 return ("undef", "f")
+            if v < 0.90:
+                return self.mod("f")
             return ("flt", float(r.randint(0, 300)))
         if u < 0.55:
             return ("neg", self.gen_flt(d - 1), "f")
@@ -270,6 +297,8 @@ class G:
             if 0 in v:                             # externals are defined through a C-string API: no embedded NUL
                 return ("str", v)
             return ("ext", self.c.new_ext("s", v))
+        if u < 0.93:
+            return self.mod("s")
         return ("undef", "s")
 
     def str_pair(self):
@@ -305,6 +334,8 @@ class G:
         elif t == "nulcut" and 0 in base:
             b = base[:base.index(0)]
         x, y = ("str", bytes(base)), ("str", bytes(b))
+        if r.random() < 0.08:
+            y = self.mod("s") if r.random() < 0.5 else ("undef", "s")
         if r.random() < 0.25 and 0 not in b:
             y = ("ext", self.c.new_ext("s", bytes(b)))
         return (x, y) if r.random() < 0.7 else (y, x)
@@ -464,6 +495,8 @@ class G:
             body = self.as_body(self.gen_nest(k - 1))
             self.loops.pop()
             return ("forrange", q, lo, hi, body, dep, True)
+        if v < 0.52:
+            return self.moditer(q, lambda: self.gen_nest(k - 1))
         if v < 0.85 or not self.rule.strs or self.in_forof:
             ity = "s" if r.random() < 0.25 else "i"
             n = r.choice([1, 2, 3])
@@ -542,6 +575,8 @@ class G:
             if v < 0.85:
                 return ("ofat", q, st, self.gen_int(min(d - 1, 1), "offset", st[1][0]))
             p = r.choice([1, 50, 100, 33, 34, 66, 67, 25, 75, 51, 99, 0, 101])
+            if r.random() < 0.12:
+                return ("pct", r.choice([("undef", "i"), self.mod("i"), ("read", "u8", self.lit(len(self.c.buf) + 1))]), st)
             return ("pct", self.lit(p) if p in (0, 101) or r.random() < 0.5 else ("int", p), st)
         if u < 0.86 and self.idx > 0:
             st = self.rset()
@@ -570,6 +605,8 @@ class G:
                 body = self.as_body(self.gen_bool(d - 1))
                 self.loops.pop()
                 return ("forrange", q, lo, hi, body, dep, True)
+            if v < 0.42:
+                return self.moditer(self.quant(d - 1, 3), lambda: self.gen_bool(d - 1))
             if v < 0.65:
                 ity = "s" if r.random() < 0.3 else "i"
                 n = r.choice([1, 2, 2, 3, 4])
